@@ -225,6 +225,10 @@ static TLS const char* nfkd_for;     /* the argument the prepared result belongs
 static TLS int quiet_normalise;      /* inside polyseed_inject: the debug self-test normalises 20480 words */
 
 static size_t do_nfkd(const char* str, polyseed_str norm, char impl) {
+    if (!quiet_normalise && (const char*)norm <= str + strlen(str) && str < (const char*)norm + POLYSEED_STR_SIZE) {
+        memset(norm, 0, POLYSEED_STR_SIZE);      /* overlapping arguments: see do_nfc */
+        nfkd_for = NULL;
+    }
     if (quiet_normalise || str != nfkd_for) {
         in_stub++;
         utf8proc_uint8_t* res = utf8proc_NFKD((const utf8proc_uint8_t*)str);
@@ -258,6 +262,10 @@ static size_t do_nfkd(const char* str, polyseed_str norm, char impl) {
 static size_t do_nfc(const char* str, polyseed_str norm, char impl) {
     ev_t* e = ev_new(EV_NFC, impl);
     in_stub++;
+    /* the contract gives the normaliser an input string and a separate output buffer; one that starts by clearing its
+       output (or refuses aliased arguments, as ICU does) is conforming: where the library passes overlapping
+       buffers, that is what it gets */
+    if ((const char*)norm <= str + strlen(str) && str < (const char*)norm + POLYSEED_STR_SIZE) memset(norm, 0, POLYSEED_STR_SIZE);
     size_t inlen = strlen(str);
     cp(e->d1, &e->n1, str, inlen);
     utf8proc_uint8_t* res = utf8proc_NFC((const utf8proc_uint8_t*)str);
@@ -402,6 +410,8 @@ int __wrap_gettimeofday(void* tv, void* tz) {
     return __real_gettimeofday(tv, tz);
 }
 FORBID(getrandom, ssize_t, (void* b, size_t n, unsigned f), (b, n, f))
+/* process-wide attributes saved and restored around a call are shared state between threads like any static */
+FORBID(prctl, int, (int o, unsigned long a2, unsigned long a3, unsigned long a4, unsigned long a5), (o, a2, a3, a4, a5))
 FORBID(getentropy, int, (void* b, size_t n), (b, n))
 FORBID(posix_memalign, int, (void** pp, size_t a, size_t n), (pp, a, n))
 FORBID(aligned_alloc, void*, (size_t a, size_t n), (a, n))
@@ -1278,6 +1288,8 @@ static void run_script(FILE* in) {
             else { emit_bytes("str", s, n > EVBUF ? EVBUF : n); fprintf(out, ",\"len\":%zu", n); }
             eol();
             needles_text(nfkd_prepared, nfkd_prepared_n < 1000 ? nfkd_prepared_n : 1000);
+            /* ... and as given: the lazily copied ASCII head of a string whose normalisation then fails is phrase text too */
+            if (!bigbuf && (!nfkd_valid || nfkd_prepared_n != n || memcmp(nfkd_prepared, s, n) != 0)) needles_text(s, n < 1000 ? n : 1000);
             api_call(true);
             bool intact;
             if (bigbuf) {
